@@ -435,7 +435,7 @@ def _value_line_tokenizer(func):
         first_line = True
         for line in v.splitlines(keepends=True):
             assert not _RE_WHITESPACE_LINE.match(v)
-            if line.startswith("#"):
+            if not first_line and line.startswith("#"):
                 yield Deb822CommentToken(line)
                 continue
             has_newline = False
